@@ -224,3 +224,20 @@ PROPS["C09"] = {
         {"test": "^(TestClosedLoopTWCC|TestClosedLoopRFC8888)$", "checks": 20000, "shards": 5, "timeout": 900},
     ],
 }
+
+PROPS["C15"] = {
+    "pkg": "c15",
+    "technique": "generated concurrent programs (seeded writer goroutines, optionally under the race detector) with a conservation oracle over the multiset of assigned numbers",
+    "level_text": "Each case runs 1-8 writer goroutines over 1-4 streams through one HeaderExtensionInterceptor for more than 2^16 packets; the numbers seen at the next "
+                  "writers must form one consecutive run modulo 2^16 (every residue floor/ceil(N/65536) times, extras contiguous), increase per writer, and every other header "
+                  "field, extension and the payload must be unchanged; non-negotiated streams pass untouched. Exploration (thorough: under -race).",
+    "level_note": "trusts: the Go scheduler to produce diverse interleavings (not owned by the harness); headers use no extension, the one-byte or the two-byte profile",
+    "assumptions": ["extension ids 1..14; each writer goroutine owns its header objects"],
+    "quick": [
+        {"test": "^TestTransportWideNumbersGapFree$", "checks": 40, "timeout": 300},
+    ],
+    "thorough": [
+        {"test": "^TestTransportWideNumbersGapFree$", "checks": 150, "shards": 4, "timeout": 900},
+        {"test": "^TestTransportWideNumbersGapFree$", "checks": 25, "shards": 8, "race": True, "timeout": 1200},
+    ],
+}
